@@ -53,7 +53,10 @@ CLAIM = dict(
          "the tie to the code; system allocator returns page-aligned disjoint pages (checked by the harness at run time); "
          "pointer dereferences of boxed.rs/linked_list.rs are exercised (and run under Miri as supporting evidence), not proved. "
          "Excluded band page-16 < s < page: find_region recurses forever (Refuted/C15.v witness, replayed on the real allocator "
-         "by the band scripts under a watchdog); also excluded: zero-size layouts with alignment > page.",
+         "by the band scripts under a watchdog); also excluded: zero-size layouts with alignment > page. Miri (thorough "
+         "tier, evidence/C15_miri.json, aliasing checks off) finds no out-of-bounds/use-after-free/misaligned/uninitialised "
+         "access or leak on 7 scripts; with Stacked or Tree Borrows enabled it flags CQueue::new handing each bucket list "
+         "its own &mut-derived raw handle to the one allocator (experimental aliasing rules; observation outside C15).",
     technique="Coq invariant proof by induction over reachable allocator states (pairwise-disjointness up to permutation, "
               "page-oracle hypotheses) + trace theorem for reuse-after-free + differential correspondence check with exact "
               "address prediction",
